@@ -27,7 +27,7 @@ Bag3(seq) == [x \in {<<seq[i][1], seq[i][2], seq[i][3]>> : i \in DOMAIN seq} |->
 \* bag logged as [[k, a, n], ...]
 Bag2(seq) == [x \in {<<seq[i][1], seq[i][2]>> : i \in DOMAIN seq} |->
                  LET i == CHOOSE j \in DOMAIN seq : <<seq[j][1], seq[j][2]>> = x IN seq[i][3]]
-StepBag(b, kk) == [x \in {y \in DOMAIN b : y[1] = kk} |-> b[x]]
+StepBag(b, kk) == [x \in {y \in DOMAIN b : y[1] = kk /\ y[2] \in engT[eng]} |-> b[x]]   \* this engine's list
 DropStep(b) == [p \in {<<x[2], x[3]>> : x \in DOMAIN b} |-> b[<<k, p[1], p[2]>>]]
 
 TraceInit == Init /\ tid \in DOMAIN Traces /\ l = 1
